@@ -241,6 +241,13 @@ def gen(i, R, tier, force_mode=None):
     malformed = [p for p in P if p[1].split(".", 1)[1] in ("unbal", "half", "closers", "arrowparam", "arrowmix", "arrowcall", "deflast")]
     tree_ops, placed = G.base_tree(rng, 3, 10, p_bad=0.2, extras=0.3)
     ops += tree_ops
+    if rng.random() < 0.35:
+        # configuration files below the root must have no effect, in whatever order directories are visited
+        for d in rng.sample(G.DISTRACTOR_DIRS + ["src/deep", "x"], rng.randint(1, 3)):
+            if rng.random() < 0.7:
+                ops.append({"op": "set_gitignore", "patterns": rng.sample(["*.py", "*.js", "*", "a.py", "K.cs", "lib", "src", "*.c", "m.*"], rng.randint(1, 3)), "where": d})
+            else:
+                ops.append({"op": "set_yml", "patterns": ["*.js", "src", "lib"][: rng.randint(1, 3)], "where": d})
     if swarm["mode"] == "library":
         n = rng.randint(20, 60)
         focus = rng.sample(P, min(len(P), rng.randint(3, 12)))
